@@ -567,7 +567,7 @@ def bisim_observed(shard, li, hist):
 
 def check_c06(tier, replay_file=None):
     prop = "C06"
-    if replay_file and json.load(open(replay_file)).get("engine") == "E2-loop-trace":
+    if replay_file and json.load(open(replay_file)).get("engine") in ("E2-loop-trace", "E2-loop-walk"):
         import e2
         return e2.check(prop, tier, replay_file)
     res = Result(prop, tier, "model_checking")
